@@ -116,4 +116,62 @@ theorem parseTokens_sound (hV : SemverAgree) (hS : StmtSound) (st : PState) (d :
       eraseDocument, erasePackageDirective]
     right
     exact ⟨k4, _, _, h3 _ (by omega), by simp; omega, rfl, rfl⟩
+
+/-- **completeness of the parser model** (given the statement level): every derivation of the
+whole token sequence is the tree the parser returns (up to spans and docs) -/
+theorem parseTokens_complete (hV : SemverAgree) (hS : StmtSound) (hC : StmtComplete) (st : PState)
+    (hwf : WF st) (d' : Document) (h : d' ∈ derivations (abs st)) :
+    ∃ d, parseTokens st = .ok d ∧ eraseDocument d = d' := by
+  rw [mem_derivations, abs_length] at h
+  simp [gDocument, mem_gPackageName, mem_gPackagePath, mem_many, and_assoc] at h
+  obtain ⟨k1, k2, pkg', hpkg, hrest⟩ := h
+  have hagree := pkgNameAt_agree hV (tokAt (adv st))
+  rw [hpkg] at hagree
+  obtain ⟨pkg, hpkg0, rfl⟩ := Option.map_eq_some_iff.mp hagree
+  have l1 := len_of_peekTok k1
+  have l2 := len_of_peekTok k2
+  have hfuel : st.toks.length + 2 + 2 ≤ fuelFor st.toks.length := by unfold fuelFor; omega
+  rcases hrest with ⟨k3, k3', tg, r2, ⟨path', hpath, rfl, rfl⟩, u, r3, hsemi, ss', r4, hm, _, rfl, rfl⟩ |
+    ⟨k3, ss', r4, hm, _, rfl, rfl⟩
+  · -- with `targets`
+    have hwf3 : WF (adv (adv (adv st))) := hwf.adv.adv.adv
+    have hpagree := pkgPathAt_agree hV (tokAt (adv (adv (adv st)))) (hwf3.shape k3')
+    rw [hpath] at hpagree
+    obtain ⟨path, hpath0, rfl⟩ := Option.map_eq_some_iff.mp hpagree
+    simp at hsemi
+    obtain ⟨k4, rfl⟩ := hsemi
+    have l3 := len_of_peekTok k3
+    have l3' := len_of_peekTok k3'
+    have l4 := len_of_peekTok k4
+    obtain ⟨ss, st', hss, rfl⟩ := parseStatements_complete hS hC _ _ hfuel hm rfl _ rfl hwf3.adv.adv
+      ((adv (adv (adv (adv (adv st))))).toks.length + 1) (by omega)
+    have hopt : parseOptional (adv (adv st)) .TargetsKeyword parsePackagePath =
+        .ok (some path, adv (adv (adv (adv st)))) :=
+      parseOptional_eq_ok.mpr (.inl ⟨k3, path, parsePackagePath_eq_ok.mpr ⟨k3', hpath0, rfl⟩, rfl⟩)
+    refine ⟨⟨parseDocs st, ⟨pkg, some path⟩, ss⟩, ?_, ?_⟩
+    · simp only [parseTokens, parsePackageDirective, parseToken_ok k1,
+        parsePackageName_eq_ok.mpr ⟨k2, hpkg0, rfl⟩, hopt, parseToken_ok k4, hss, Except.ok_bind]
+    · simp [eraseDocument, erasePackageDirective]
+  · -- without
+    have l3 := len_of_peekTok k3
+    obtain ⟨ss, st', hss, rfl⟩ := parseStatements_complete hS hC _ _ hfuel hm rfl _ rfl hwf.adv.adv.adv
+      ((adv (adv (adv st))).toks.length + 1) (by omega)
+    have hopt : parseOptional (adv (adv st)) .TargetsKeyword parsePackagePath =
+        .ok (none, adv (adv st)) :=
+      parseOptional_eq_ok.mpr (.inr ⟨by simp [k3], peekErr_of_peekTok k3, rfl, rfl⟩)
+    refine ⟨⟨parseDocs st, ⟨pkg, none⟩, ss⟩, ?_, ?_⟩
+    · simp only [parseTokens, parsePackageDirective, parseToken_ok k1,
+        parsePackageName_eq_ok.mpr ⟨k2, hpkg0, rfl⟩, hopt, parseToken_ok k3, hss, Except.ok_bind]
+    · simp [eraseDocument, erasePackageDirective]
+
+/-- the grammar is unambiguous on every token sequence the parser can be run on (given the
+statement level): any two derivations are equal -/
+theorem derivations_unique (hV : SemverAgree) (hS : StmtSound) (hC : StmtComplete) (st : PState)
+    (hwf : WF st) (d1 d2 : Document) (h1 : d1 ∈ derivations (abs st)) (h2 : d2 ∈ derivations (abs st)) :
+    d1 = d2 := by
+  obtain ⟨e1, he1, rfl⟩ := parseTokens_complete hV hS hC st hwf d1 h1
+  obtain ⟨e2, he2, rfl⟩ := parseTokens_complete hV hS hC st hwf d2 h2
+  rw [he1] at he2
+  cases he2; rfl
+
 end Wac.C12
